@@ -38,13 +38,13 @@ func runC06(c *Ctx, r *Report) {
 	c06Prefixes(c, r, "C06.R20")
 	c06TLSPrefixes(c, r, "C06.R22")
 	c04BoundedParsers(c, r, "C06.R23") // a prefix answers need-more, not an error: the HTTP/2 framer's limit does not depend on how much has arrived
-	c01R2(c, r, "C06.R21")    // evaluating a matcher never changes what later matchers read: freeze and unfreeze are the only writers of the matching state, and unfreeze always puts the cursor back
-	c08R6(c, r, "C06.R19")    // the same bytes give the same verdict: a new connection's matching buffer starts empty (a recycled slice keeps the length it was returned with)
-	c01R4(c, r, "C06.R16")    // evaluating a matcher never changes what later matchers read: what prefetch appends is a copy of what it read (never a view of the pooled chunk it returns)
-	c08R3(c, r, "C06.R17")    // ... and no view of a pooled buffer is retained by the connection
-	c05R5(c, r, "C06.R18")    // a message below the limit is prefetched whole however it is fragmented: below the limit prefetch performs exactly one read, whatever the fill
-	c02R1(c, r, "C06.R8")     // the combinators hand a "need more data" answer up unchanged (it is never overwritten by a later set's "no")
-	c02Router(c, r, "C06.R9") // the router never acts on a verdict that is stale for the stream as it is now (fragmented == whole delivery)
+	c01R2(c, r, "C06.R21")             // evaluating a matcher never changes what later matchers read: freeze and unfreeze are the only writers of the matching state, and unfreeze always puts the cursor back
+	c08R6(c, r, "C06.R19")             // the same bytes give the same verdict: a new connection's matching buffer starts empty (a recycled slice keeps the length it was returned with)
+	c01R4(c, r, "C06.R16")             // evaluating a matcher never changes what later matchers read: what prefetch appends is a copy of what it read (never a view of the pooled chunk it returns)
+	c08R3(c, r, "C06.R17")             // ... and no view of a pooled buffer is retained by the connection
+	c05R5(c, r, "C06.R18")             // a message below the limit is prefetched whole however it is fragmented: below the limit prefetch performs exactly one read, whatever the fill
+	c02R1(c, r, "C06.R8")              // the combinators hand a "need more data" answer up unchanged (it is never overwritten by a later set's "no")
+	c02Router(c, r, "C06.R9")          // the router never acts on a verdict that is stale for the stream as it is now (fragmented == whole delivery)
 }
 
 // R7: matcher side effects on per-connection state happen only after all reading is done.
